@@ -10,6 +10,7 @@ import (
 	"bufio"
 	"bytes"
 	"crypto"
+	"encoding/binary"
 	"fmt"
 	"io"
 	"strings"
@@ -50,7 +51,6 @@ func FuzzObject(f *testing.F) {
 	f.Add(uint8(0), []byte("tree 0000000000000000000000000000000000000000\nauthor a <a> 0 +0000\ncommitter c <c> 0 +0000\n\nm\n"))
 	f.Fuzz(func(t *testing.T, kind uint8, data []byte) {
 		k := kind % 5
-		extra := fmt.Sprintf("kind=%d", k)
 		for _, of := range []formatcfg.ObjectFormat{formatcfg.SHA1, formatcfg.SHA256} {
 			mode := [...]string{"commit", "tree", "tag", "blob", "signature"}[k] + "-" + of.String()
 			guard(t, "FuzzObject", mode, func() bool {
@@ -92,7 +92,7 @@ func FuzzObject(f *testing.F) {
 					if err := tg.Decode(mo); err != nil {
 						return false
 					}
-					_ = tg.String()
+					// tg.String() resolves the target through the storer: exercised via DecodeObject below
 					_ = tg.Encode(&plumbing.MemoryObject{})
 					_ = tg.EncodeWithoutSignature(&plumbing.MemoryObject{})
 					return true
@@ -115,7 +115,7 @@ func FuzzObject(f *testing.F) {
 					_ = s.Encode(io.Discard)
 					return s.Name != "" || s.Email != ""
 				}
-			}, extra, data)
+			}, kind, data)
 			if k >= 3 {
 				break // blob / signature do not depend on the object format
 			}
@@ -134,8 +134,17 @@ func FuzzObject(f *testing.F) {
 					return false
 				}
 				_ = o.ID()
+				switch v := o.(type) {
+				case *object.Tag:
+					_ = v.String() // target lookup fails in the empty storer; must not crash
+				case *object.Commit:
+					_ = v.String()
+					_, _ = v.Tree()
+				case *object.Tree:
+					_, _ = v.File("a")
+				}
 				return true
-			}, extra, data)
+			}, kind, data)
 		}
 	})
 }
@@ -160,7 +169,7 @@ func FuzzObjfile(f *testing.F) {
 				_, err = io.Copy(io.Discard, r)
 				_ = r.Hash()
 				return err == nil
-			}, "", data)
+			}, data)
 		}
 		guard(t, "FuzzObjfile", "storage", func() bool {
 			fs := memfs.New()
@@ -184,7 +193,7 @@ func FuzzObjfile(f *testing.F) {
 			_, err = io.Copy(io.Discard, r)
 			_ = r.Close()
 			return err == nil
-		}, "", data)
+		}, data)
 	})
 }
 
@@ -221,9 +230,9 @@ func FuzzPackScanner(f *testing.F) {
 			}
 			return s.Error() == nil && n > 0
 		}
-		guard(t, "FuzzPackScanner", "seekable", func() bool { return scan(bytes.NewReader(data)) }, "", data)
-		guard(t, "FuzzPackScanner", "stream", func() bool { return scan(onlyReader{bytes.NewReader(data)}) }, "", data)
-		guard(t, "FuzzPackScanner", "sha256", func() bool { return scan(bytes.NewReader(data), packfile.WithSHA256()) }, "", data)
+		guard(t, "FuzzPackScanner", "seekable", func() bool { return scan(bytes.NewReader(data)) }, data)
+		guard(t, "FuzzPackScanner", "stream", func() bool { return scan(onlyReader{bytes.NewReader(data)}) }, data)
+		guard(t, "FuzzPackScanner", "sha256", func() bool { return scan(bytes.NewReader(data), packfile.WithSHA256()) }, data)
 	})
 }
 
@@ -236,20 +245,31 @@ func FuzzPackParser(f *testing.F) {
 		guard(t, "FuzzPackParser", "nostorage", func() bool {
 			_, err := packfile.NewParser(bytes.NewReader(data)).Parse()
 			return err == nil
-		}, "", data)
+		}, data)
 		guard(t, "FuzzPackParser", "memory", func() bool {
 			_, err := packfile.NewParser(bytes.NewReader(data), packfile.WithStorage(memory.NewStorage())).Parse()
 			return err == nil
-		}, "", data)
+		}, data)
 		guard(t, "FuzzPackParser", "stream-memory", func() bool {
 			_, err := packfile.NewParser(onlyReader{bytes.NewReader(data)}, packfile.WithStorage(memory.NewStorage())).Parse()
 			return err == nil
-		}, "", data)
+		}, data)
 		guard(t, "FuzzPackParser", "sha256", func() bool {
 			_, err := packfile.NewParser(bytes.NewReader(data), packfile.WithObjectFormat(formatcfg.SHA256),
 				packfile.WithStorage(memory.NewStorage(memory.WithObjectFormat(formatcfg.SHA256)))).Parse()
 			return err == nil
-		}, "", data)
+		}, data)
+		// Known finding FuzzPackParser:alloc@…idxfile.(*Writer).OnHeader: the idx
+		// writer behind PackfileWriter preallocates `count` entries (56 B each)
+		// from the 4-byte header field. Counts up to 2^24 (<= 0.9 GiB) are run and
+		// judged by the allocation oracle; larger ones would exhaust the 8 GiB
+		// RLIMIT_AS, kill the worker (fatal error: out of memory) and stop the
+		// engine at the same known defect every few hundred executions, so this
+		// one mode skips them (the other modes, whose prealloc is capped, do not).
+		if len(data) >= 12 && string(data[:4]) == "PACK" && binary.BigEndian.Uint32(data[8:12]) > 1<<24 {
+			skipMode("FuzzPackParser", "fs-update")
+			return
+		}
 		guard(t, "FuzzPackParser", "fs-update", func() bool {
 			st := filesystem.NewStorage(memfs.New(), cache.NewObjectLRUDefault())
 			defer st.Close()
@@ -273,7 +293,7 @@ func FuzzPackParser(f *testing.F) {
 				return nil
 			})
 			return true
-		}, "", data)
+		}, data)
 	})
 }
 
@@ -307,7 +327,7 @@ func FuzzPackfile(f *testing.F) {
 				p := packfile.NewPackfile(pf, opts...)
 				defer p.Close()
 				return walkPackfile(p, idx)
-			}, "", pack, idxData)
+			}, pack, idxData)
 		}
 	})
 }
@@ -454,7 +474,7 @@ func FuzzIdx(f *testing.F) {
 				var buf bytes.Buffer
 				_ = idxfile.Encode(&buf, hash.New(hh), idx)
 				return true
-			}, "", idxData, revData)
+			}, idxData, revData)
 			guard(t, "FuzzIdx", fmt.Sprintf("lazy-%d", hs), func() bool {
 				var packHash plumbing.Hash
 				if len(idxData) >= hs*2 {
@@ -470,7 +490,7 @@ func FuzzIdx(f *testing.F) {
 				defer idx.Close()
 				exerciseIndex(idx, namesFromIdx(idxData, hs, 4))
 				return true
-			}, "", idxData, revData)
+			}, idxData, revData)
 		}
 	})
 }
@@ -503,7 +523,7 @@ func FuzzRev(f *testing.F) {
 				err := revfile.Decode(bytes.NewReader(data), n, packID, out)
 				<-done
 				return err == nil
-			}, fmt.Sprintf("count=%d", count), data)
+			}, data, count)
 		}
 	})
 }
@@ -540,7 +560,7 @@ func FuzzIndex(f *testing.F) {
 				var buf bytes.Buffer
 				_ = index.NewEncoder(&buf, hash.New(crypto.SHA1)).Encode(idx)
 				return true
-			}, "", data)
+			}, data)
 		}
 	})
 }
@@ -562,15 +582,18 @@ func FuzzCommitGraph(f *testing.F) {
 				return false
 			}
 			defer idx.Close()
-			walkCommitGraph(idx)
-			var buf bytes.Buffer
-			_ = commitgraph.NewEncoder(&buf).Encode(idx)
+			if walkCommitGraph(idx) {
+				// only a graph whose commit data all decoded is handed to the encoder
+				// (the encoder is not a decoder; it may assume a well-formed Index)
+				var buf bytes.Buffer
+				_ = commitgraph.NewEncoder(&buf).Encode(idx)
+			}
 			return true
-		}, "", data)
+		}, data)
 		guard(t, "FuzzCommitGraph", "chain-file", func() bool {
 			_, err := commitgraph.OpenChainFile(bytes.NewReader(data))
 			return err == nil
-		}, "", data)
+		}, data)
 		guard(t, "FuzzCommitGraph", "chain-dir", func() bool {
 			// data as the single graph of a one-element chain, opened from a .git layout
 			fs := memfs.New()
@@ -584,22 +607,26 @@ func FuzzCommitGraph(f *testing.F) {
 			defer idx.Close()
 			walkCommitGraph(idx)
 			return true
-		}, "", data)
+		}, data)
 	})
 }
 
-func walkCommitGraph(idx commitgraph.Index) {
+func walkCommitGraph(idx commitgraph.Index) (allOK bool) {
 	hashes := idx.Hashes()
 	n := min(len(hashes), iterCap)
+	allOK = len(hashes) <= iterCap
 	for i := 0; i < n; i++ {
 		_, _ = idx.GetIndexByHash(hashes[i])
 		_, _ = idx.GetHashByIndex(uint32(i))
-		_, _ = idx.GetCommitDataByIndex(uint32(i))
+		if _, err := idx.GetCommitDataByIndex(uint32(i)); err != nil {
+			allOK = false
+		}
 	}
 	_, _ = idx.GetCommitDataByIndex(0xfffffff0)
 	_, _ = idx.GetHashByIndex(0xfffffff0)
 	_ = idx.HasGenerationV2()
 	_ = idx.MaximumNumberOfHashes()
+	return allOK
 }
 
 // ---------------------------------------------------------------- reflog
@@ -619,7 +646,7 @@ func FuzzReflog(f *testing.F) {
 				_ = reflog.Encode(io.Discard, e)
 			}
 			return len(entries) > 0
-		}, "", data)
+		}, data)
 	})
 }
 
@@ -654,7 +681,7 @@ func FuzzGitignore(f *testing.F) {
 			_ = m.Match(segs, isDir)
 			_ = m.Match(append([]string{"sub"}, segs...), isDir)
 			return len(ps) > 0
-		}, path, file)
+		}, file, path)
 		guard(t, "FuzzGitignore", "pattern", func() bool {
 			line := string(file)
 			if i := strings.IndexByte(line, '\n'); i >= 0 {
@@ -665,7 +692,7 @@ func FuzzGitignore(f *testing.F) {
 			p2 := gitignore.ParsePattern(line, []string{"sub"})
 			_ = p2.Match(append([]string{"sub"}, segs...), isDir)
 			return true
-		}, path, file)
+		}, file, path)
 	})
 }
 
@@ -682,7 +709,7 @@ func FuzzGitattributes(f *testing.F) {
 			_, _ = m.Match(segs, nil)
 			_, _ = m.Match(segs, []string{"text", "eol", "binary"})
 			return len(attrs) > 0
-		}, path, file)
+		}, file, path)
 		guard(t, "FuzzGitattributes", "dir", func() bool {
 			fs := memfs.New()
 			_ = writeFile(fs, ".gitattributes", file)
@@ -693,7 +720,7 @@ func FuzzGitattributes(f *testing.F) {
 			}
 			_, _ = gitattributes.NewMatcher(attrs).Match(segs, nil)
 			return len(attrs) > 0
-		}, path, file)
+		}, file, path)
 	})
 }
 
@@ -711,7 +738,7 @@ func FuzzPktline(f *testing.F) {
 				}
 			}
 			return ok
-		}, "", data)
+		}, data)
 		guard(t, "FuzzPktline", "ReadLine", func() bool {
 			r := bytes.NewReader(data)
 			n := 0
@@ -723,14 +750,14 @@ func FuzzPktline(f *testing.F) {
 				}
 				n++
 			}
-		}, "", data)
+		}, data)
 		guard(t, "FuzzPktline", "PeekLine", func() bool {
 			br := bufio.NewReader(bytes.NewReader(data))
 			_, _, err := pktline.PeekLine(br)
 			_, _, _ = pktline.PeekLine(br)
 			_, _, _ = pktline.ReadLine(br)
 			return err == nil
-		}, "", data)
+		}, data)
 		guard(t, "FuzzPktline", "Scanner", func() bool {
 			sc := pktline.NewScanner(bytes.NewReader(data))
 			n := 0
@@ -739,18 +766,18 @@ func FuzzPktline(f *testing.F) {
 				n++
 			}
 			return sc.Err() == nil && n > 0
-		}, "", data)
+		}, data)
 		guard(t, "FuzzPktline", "ErrorLine", func() bool {
 			e := &pktline.ErrorLine{}
 			return e.Decode(bytes.NewReader(data)) == nil
-		}, "", data)
+		}, data)
 		for _, typ := range []sideband.Type{sideband.Sideband, sideband.Sideband64k} {
 			guard(t, "FuzzPktline", fmt.Sprintf("sideband-%d", typ), func() bool {
 				d := sideband.NewDemuxer(typ, bytes.NewReader(data))
 				d.Progress = io.Discard
 				_, err := io.Copy(io.Discard, d)
 				return err == nil
-			}, "", data)
+			}, data)
 		}
 	})
 }
@@ -775,7 +802,7 @@ func FuzzCapability(f *testing.F) {
 			_, _ = l2.MarshalText()
 			l.Delete("agent")
 			return err == nil && !l.IsEmpty()
-		}, "", data)
+		}, data)
 	})
 }
 
@@ -835,6 +862,6 @@ func FuzzPackp(f *testing.F) {
 				_ = ar.IsEmpty()
 			}
 			return true
-		}, "msg="+m.name, data)
+		}, sel, data)
 	})
 }
